@@ -69,8 +69,8 @@ struct cpuiddump {
 static void
 cpuiddump_free(struct cpuiddump *cpuiddump)
 {
-  if (cpuiddump->nr)
-    free(cpuiddump->entries);
+  /* entries is always allocated by cpuiddump_read(), even when no line was valid (nr == 0) */
+  free(cpuiddump->entries);
   free(cpuiddump);
 }
 
